@@ -174,11 +174,12 @@ fn observe(log: &MultiRecordLog, m: &Model, meta: usize) {
 }
 
 /// One script of K operations on a log that a replay left with three files (writer on file 2 at
-/// `OFFSET`) and, if INIT == 1, queue "a" = {0 in file 0, 1 in file 1} and queue "bq" = {0 in file 1}.
+/// `OFFSET`) and, if INIT == 1, queue "a" = {0 in file 0, 1 in file 1} and queue "bq" = {0 in file 1};
+/// INIT == 2: "a" = {1 in file 1}, "bq" = {0 in file 1}, file 0 unreferenced but not yet reclaimed.
 /// op code: low 4 bits kind, bit 4 = queue index.
 ///  0 create   1 delete   2 append(None)   3 append(Some(next+2))   4 append(Some(last)) [no-op]
 ///  5 append(Some(last-1)) [Past]   6 empty batch [no-op]   7 truncate(first)   8 truncate(next+3)
-///  9 batch of two records
+///  9 batch of two records   10 truncate(first-1) [evicts nothing]
 fn log_script<const INIT: usize, const K: usize>(ops: [u8; K]) {
     mark_case();
     const OFFSET: usize = 1000;
@@ -216,6 +217,30 @@ fn log_script<const INIT: usize, const K: usize>(ops: [u8; K]) {
         first_file: 0,
     };
     let init_bytes: [u8; 3] = kani::any();
+    if INIT == 2 {
+        // file 0 holds nothing retained any more but has not been reclaimed yet
+        qs.ack_position(NAMES[0], 1);
+        qs.ack_position(NAMES[1], 0);
+        let r1 = qs.append_record(NAMES[0], &f1, 1, &init_bytes[1..2]).is_ok();
+        let r2 = qs.append_record(NAMES[1], &f1, 0, &init_bytes[2..3]).is_ok();
+        assert!(r1 && r2);
+        m.q[0] = RefQueue {
+            exists: true,
+            next: 2,
+            n: 1,
+            pos: [1, 0, 0, 0, 0],
+            byte: [init_bytes[1], 0, 0, 0, 0],
+            file: [1, 0, 0, 0, 0],
+        };
+        m.q[1] = RefQueue {
+            exists: true,
+            next: 1,
+            n: 1,
+            pos: [0; MAXREC],
+            byte: [init_bytes[2], 0, 0, 0, 0],
+            file: [1, 0, 0, 0, 0],
+        };
+    }
     if INIT == 1 {
         qs.ack_position(NAMES[0], 0);
         qs.ack_position(NAMES[1], 0);
@@ -361,7 +386,13 @@ fn log_script<const INIT: usize, const K: usize>(ops: [u8; K]) {
                 }
             }
         } else {
-            let t = if kind == 7 && m.q[qi].n > 0 { m.q[qi].pos[0] } else { m.q[qi].next + 3 };
+            let t = if kind == 7 && m.q[qi].n > 0 {
+                m.q[qi].pos[0]
+            } else if kind == 10 && m.q[qi].n > 0 && m.q[qi].pos[0] > 0 {
+                m.q[qi].pos[0] - 1 // evicts nothing
+            } else {
+                m.q[qi].next + 3
+            };
             let r = log.truncate(name, ..=t);
             let ok = r.is_ok();
             let (evicted, bytes) = match &r {
@@ -422,6 +453,8 @@ fn log_scripts<const INIT: usize, const ALPHA: usize, const K: usize, const S_LO
         0 => &[0, 2, 3, 4, 5, 6, 9, 7, 8, 16 + 0, 16 + 2],
         // reclamation: truncations and deletions on the pre-populated log
         1 => &[7, 8, 1, 2, 16 + 7, 16 + 8, 16 + 1, 16 + 2],
+        // calls that evict nothing on a log with a reclaimable file
+        2 => &[10, 16 + 10, 4, 6],
         _ => &[0],
     };
     let n = alphabet.len();
